@@ -501,6 +501,55 @@ func TestPodHistories(t *testing.T) {
 				lookup(t, rapid.SampledFrom(held).Draw(t, "held-ip"))
 			},
 			"lookup": func(t *rapid.T) { lookup(t, rapid.SampledFrom(lookupIPs).Draw(t, "ip")) },
+			"lookupsBeforeAnyAnswerIsRead": func(t *rapid.T) {
+				// a consumer slower than its producer: many lookups are handed in before the first answer is read. Every one of
+				// them is answered, with the pod now holding the address
+				if rapid.IntRange(0, 7).Draw(t, "sink-burst-now") != 0 {
+					t.Skip("no burst now")
+				}
+				n := rapid.SampledFrom([]int{10, 63, 64, 65, 70, 130}).Draw(t, "lookups")
+				asked := map[string]int{}
+				for i := 0; i < n; i++ {
+					ip := ips[i%len(ips)]
+					if i%3 == 2 {
+						ip = fmt.Sprintf("10.66.0.%d", i) // nobody's address
+					}
+					select {
+					case prov.IpSink() <- gostatsd.Source(ip):
+						asked[ip]++
+					case <-time.After(30 * time.Second):
+						fail("C13:ipsink-not-accepted", "IpSink did not accept lookup %d of %d while no answer had been read", i+1, n)
+					}
+				}
+				history = append(history, fmt.Sprintf("%d lookups handed in before any answer was read", n))
+				for i := 0; i < n; i++ {
+					select {
+					case info := <-prov.InfoSource():
+						ip := string(info.IP)
+						if asked[ip] == 0 {
+							fail("C13:answer-for-other-ip", "answer %d of %d is for %q, which was not asked for (or was answered already)", i+1, n, ip)
+						}
+						asked[ip]--
+						var holder *podState
+						for _, p := range pods {
+							if p.ip == ip && p.indexable() {
+								holder = p
+							}
+						}
+						if holder == nil && info.Instance != nil {
+							fail("C13:stale-or-wrong-pod", "lookup %q returned %s but no running non-host-network pod holds that IP", ip, describe(info.Instance))
+						}
+						if holder != nil && (info.Instance == nil || string(info.Instance.ID) != holder.ns+"/"+holder.name) {
+							fail("C13:pod-not-found", "lookup %q returned %s, the pod holding the IP is %s/%s", ip, describe(info.Instance), holder.ns, holder.name)
+						}
+						if holder != nil {
+							memo[ip] = true
+						}
+					case <-time.After(30 * time.Second):
+						fail("C13:no-answer", "%d of %d lookups handed in before any answer was read were answered (30s)", i, n)
+					}
+				}
+			},
 		})
 		labels := []string{}
 		if lrs != "" {
